@@ -318,3 +318,21 @@ def fz_line(p, snapshot):
 def fz_show(status, headers, chunks, err):
     headers = [(k, norm_cookie(v) if k.lower() == 'set-cookie' else v) for k, v in headers]
     return f"{status}|{';'.join(hs(k) + ':' + hs(v) for k, v in headers)}|{','.join(hx(c) for c in chunks)}|{1 if err else 0}"
+
+
+def fzt_line(p, snapshot, send_fail_at):
+    """Line for fztdriver (FzTMain.lean): the fzdriver line + whether the stream object has close() + the failing send index."""
+    has_close = p['stream'] is not None and p['stream']['kind'] in ('file', 'iter')
+    return fz_line(p, snapshot) + f" close={1 if has_close else 0} xf={'-' if send_fail_at is None else send_fail_at}"
+
+
+def fzt_show(sent, closes, raised):
+    evs = []
+    for m in sent:
+        if m['type'] == 'http.response.start':
+            hl = [(bytes(k).decode('latin-1'), bytes(v).decode('latin-1')) for k, v in m['headers']]
+            hl = [(k, norm_cookie(v) if k == 'set-cookie' else v) for k, v in hl]
+            evs.append(f"S:{m['status']}:{';'.join(hs(k) + ':' + hs(v) for k, v in hl)}")
+        else:
+            evs.append(f"B:{hx(m.get('body', b''))}:{'t' if m.get('more_body', False) else 'f'}")
+    return f"{','.join(evs)}|{closes}|{1 if raised else 0}"
